@@ -46,9 +46,12 @@ const t0 = 3 * sec
 var configs = [][]TimerCfg{
 	{{ID: "B10", Dur: 10 * sec, Start: t0}},
 	{{ID: "A25", Dur: 25 * sec, Start: t0 + 7*sec}, {ID: "B10", Dur: 10 * sec, Start: t0}},
+	// the mirror image: the timer that starts later sorts LAST, so the keeper reads a running timer and then a
+	// not-yet-started one (state must not leak from one decoded timer into the next). Explored one level shallower.
+	{{ID: "B10", Dur: 10 * sec, Start: t0}, {ID: "C25", Dur: 25 * sec, Start: t0 + 7*sec}},
 }
 
-var configNames = []string{"B10:10s@t0", "A25:25s@t0+7s,B10:10s@t0"}
+var configNames = []string{"B10:10s@t0", "A25:25s@t0+7s,B10:10s@t0", "B10:10s@t0,C25:25s@t0+7s (one level shallower)"}
 
 var deltas = []int64{0, 1 * sec, 9 * sec, 10 * sec, 10*sec + 1, 11 * sec, 25 * sec, 61 * sec}
 var deltaNames = []string{"0", "1s", "9s", "10s", "10s+1ns", "11s", "25s", "61s"}
